@@ -19,6 +19,8 @@ EXPLANATION = (
     " C16's Excel cell values). (O4.8) Location, its copy, its text and Reader() over every kind of source name"
     " (path, stream with a text name, none, None, a file descriptor, 0, empty, bytes): a source without a usable"
     " name is shown as <io>."
+    " Added in rounds 8 and 9: (O4.9) covered cells and row containers keep the items of a row in place (C15's"
+    " table)."
 )
 ASSUMPTIONS = ["field.validated and check.check_row behave as decided under C02/C03/C05; raw readers deliver the file's rows (C12-C16)"]
 
